@@ -1850,6 +1850,13 @@ unit(name="SrcBitEnc", props="property C18", file="src/data_structures/bitenc.rs
                      params=[("i", "usize")], ret="(usize, usize)", theorem="RbV.Thm.GenSrcBitEnc.addr_eq_model")])
 
 
+unit(name="SrcBwt", props="property C04", file="src/data_structures/bwt.rs",
+     aliases={"RawSuffixArraySlice": "&[usize]", "BWT": "Vec<u8>", "BWTSlice": "[u8]"},
+     functions=[dict(name="bwt", lean="bwt", header="pub fn bwt(text: &[u8], pos: RawSuffixArraySlice) -> BWT",
+                     params=[("text", "&[u8]"), ("pos", "RawSuffixArraySlice")], ret="BWT",
+                     theorem="RbV.Thm.GenSrcBwt.bwt_eq_model")])
+
+
 def main():
     ap = argparse.ArgumentParser()
     ap.add_argument("--repo", default=os.environ.get("VERIF_REPO", "/repo"))
